@@ -14,10 +14,20 @@ RULE = ("each generated module (valid and faulted) and each corpus module is par
         "unrelated inputs under the race detector; non-trivial = distinct module text")
 
 
+# type ALIASES (a definition whose body is another named type): their translation walks several maps; whatever it produces
+# (see the recorded C02 finding) must be the same on every parse
+ALIAS_TEXTS = [
+    "%a = type %b\n%b = type { i32 }\n\n@g = global %a zeroinitializer\n@h = global %b zeroinitializer\n",
+    "%b = type { i32, %a* }\n%a = type %b\n%c = type %a\n\n@g = global %c* null\n",
+    "%z = type %y\n%y = type %x\n%x = type opaque\n\n@g = global %z* null\n@h = global %x* null\n",
+    "%t1 = type %t10\n%t10 = type { i8, %t2 }\n%t2 = type %t3\n%t3 = type { i16 }\n\ndefine void @f(%t1 %a, %t2 %b) {\n\tret void\n}\n",
+]
+
+
 def gen(tier, rng, harness=None):
     n = 60 if tier == "quick" else 2500
     lines = []
-    for t in modprops.corpus_texts():
+    for t in modprops.corpus_texts() + ALIAS_TEXTS:
         lines.append("!mod.det - %s" % hx(t))
     # earlier parse/print activity must not matter: every module against polluters drawn from the catalogue (incl. named non-struct types),
     # the corpus and other generated modules
